@@ -1,2 +1,377 @@
-(* C07 — stub *)
-From Zap Require Import Base.Wire C07.Model.
+(* C07 — proofs, part 1: the expected pure core of a derivation path ([pexp]); Core.With and
+   Check/Write on it agree with the path specification (wrappers commute with With; the bytes of a
+   line are the print of the tree-level entry, by Enc/Refine5.entry_bytes). *)
+From Coq Require Import List ZArith NArith Bool Lia.
+From Coq.Strings Require Import Byte.
+Import ListNotations.
+From Zap Require Import Base.Wire Enc.Bytes Enc.Decimal Enc.Fields Enc.JsonEnc Enc.JsonAst Enc.WireEnc Enc.Wf.
+From Zap Require Import Enc.Refine1 Enc.Refine3 Enc.Refine4 Enc.Refine5.
+From Zap Require Import C07.Model.
+
+(* ---------- induction principles for the n-ary trees ---------- *)
+Section PcoreInd.
+  Variable P : pcore -> Prop.
+  Hypothesis Hio : forall co k s, P (PIo co k s).
+  Hypothesis Hobs : forall k ctx, P (PObs k ctx).
+  Hypothesis Htee : forall l, Forall P l -> P (PTee l).
+  Hypothesis Hsamp : forall c, P c -> P (PSamp c).
+  Hypothesis Hhook : forall c, P c -> P (PHook c).
+  Hypothesis Hfilt : forall thr c, P c -> P (PFilt thr c).
+  Fixpoint pcore_ind' (p : pcore) : P p :=
+    match p with
+    | PIo co k s => Hio co k s
+    | PObs k ctx => Hobs k ctx
+    | PTee l => Htee l ((fix go (l : list pcore) : Forall P l :=
+                           match l with [] => Forall_nil P | x :: r => Forall_cons x (pcore_ind' x) (go r) end) l)
+    | PSamp c => Hsamp c (pcore_ind' c)
+    | PHook c => Hhook c (pcore_ind' c)
+    | PFilt thr c => Hfilt thr c (pcore_ind' c)
+    end.
+End PcoreInd.
+Section LcompInd.
+  Variable P : lcomp -> Prop.
+  Hypothesis Hio : forall co k, P (LIo co k).
+  Hypothesis Hobs : forall k, P (LObs k).
+  Hypothesis Htee : forall l, Forall P l -> P (LTee l).
+  Hypothesis Hsamp : forall c, P c -> P (LSamp c).
+  Hypothesis Hhook : forall c, P c -> P (LHook c).
+  Hypothesis Hfilt : forall thr c, P c -> P (LFilt thr c).
+  Hypothesis Hlazy : forall id fs c, P c -> P (LLazy id fs c).
+  Fixpoint lcomp_ind' (c : lcomp) : P c :=
+    match c with
+    | LIo co k => Hio co k
+    | LObs k => Hobs k
+    | LTee l => Htee l ((fix go (l : list lcomp) : Forall P l :=
+                           match l with [] => Forall_nil P | x :: r => Forall_cons x (lcomp_ind' x) (go r) end) l)
+    | LSamp c => Hsamp c (lcomp_ind' c)
+    | LHook c => Hhook c (lcomp_ind' c)
+    | LFilt thr c => Hfilt thr c (lcomp_ind' c)
+    | LLazy id fs c => Hlazy id fs c (lcomp_ind' c)
+    end.
+End LcompInd.
+Section CompInd.
+  Variable P : comp -> Prop.
+  Hypothesis Hj : P CJson.
+  Hypothesis Hc : P CConsole.
+  Hypothesis Ho : P CObs.
+  Hypothesis Htee : forall l, Forall P l -> P (CTee l).
+  Hypothesis Hsamp : forall c, P c -> P (CSamp c).
+  Hypothesis Hhook : forall c, P c -> P (CHook c).
+  Hypothesis Hfilt : forall thr c, P c -> P (CFilt thr c).
+  Hypothesis Hlazy : forall fs c, P c -> P (CLazy fs c).
+  Fixpoint comp_ind' (c : comp) : P c :=
+    match c with
+    | CJson => Hj | CConsole => Hc | CObs => Ho
+    | CTee l => Htee l ((fix go (l : list comp) : Forall P l :=
+                           match l with [] => Forall_nil P | x :: r => Forall_cons x (comp_ind' x) (go r) end) l)
+    | CSamp c => Hsamp c (comp_ind' c)
+    | CHook c => Hhook c (comp_ind' c)
+    | CFilt thr c => Hfilt thr c (comp_ind' c)
+    | CLazy fs c => Hlazy fs c (comp_ind' c)
+    end.
+End CompInd.
+
+(* ---------- the list loops of the model, named ---------- *)
+Definition rwith_list (w : Z) (fs : list sfld) :=
+  fix go (l : list lcomp) (sg : store) {struct l} : list pcore * store :=
+    match l with
+    | [] => ([], sg)
+    | x :: r => let '(x', sg1) := rwith w fs x sg in
+                let '(r', sg2) := go r sg1 in (x' :: r', sg2)
+    end.
+Lemma rwith_tee w fs l sg :
+  rwith w fs (LTee l) sg = let '(l', sg') := rwith_list w fs l sg in (PTee l', sg').
+Proof. reflexivity. Qed.
+
+Definition plog_list (ent : entry) (hi : bool) (w : Z) (fs : list sfld) :=
+  fix go (l : list pcore) (nn : bool) {struct l} : res :=
+    match l with
+    | [] => ([], [], nn)
+    | x :: r => let '(c1, w1, n1) := plog ent hi w fs x nn in
+                let '(c2, w2, n2) := go r n1 in (c1 ++ c2, w1 ++ w2, n2)
+    end.
+Lemma plog_tee ent hi w fs l nn : plog ent hi w fs (PTee l) nn = plog_list ent hi w fs l nn.
+Proof. reflexivity. Qed.
+
+Definition swalk_list (m : marks) (hi : bool) (nm msg : bytes) (w : Z) (fs : list sfld) (ch : list pitem) :=
+  fix go (l : list lcomp) (nn : bool) {struct l} : res :=
+    match l with
+    | [] => ([], [], nn)
+    | x :: r => let '(c1, w1, n1) := swalk m hi nm msg w fs x ch nn in
+                let '(c2, w2, n2) := go r n1 in (c1 ++ c2, w1 ++ w2, n2)
+    end.
+Lemma swalk_tee m hi nm msg w fs l ch nn :
+  swalk m hi nm msg w fs (LTee l) ch nn = swalk_list m hi nm msg w fs ch l nn.
+Proof. reflexivity. Qed.
+
+Definition rlog_list (ent : entry) (hi : bool) (w : Z) (fs : list sfld) :=
+  fix go (l : list lcomp) (sg : store) (nn : bool) {struct l} : res * store :=
+    match l with
+    | [] => (([], [], nn), sg)
+    | x :: r => let '((c1, w1, n1), sg1) := rlog ent hi w fs x sg nn in
+                let '((c2, w2, n2), sg2) := go r sg1 n1 in ((c1 ++ c2, w1 ++ w2, n2), sg2)
+    end.
+Lemma rlog_tee ent hi w fs l sg nn : rlog ent hi w fs (LTee l) sg nn = rlog_list ent hi w fs l sg nn.
+Proof. reflexivity. Qed.
+
+(* ---------- marks ---------- *)
+Definition marked (m : marks) (id : nat) : Prop := lookup id m <> None.
+Definition all_marked (m : marks) (ids : list nat) : Prop := Forall (marked m) ids.
+Definition mem (id : nat) (ids : list nat) : bool := existsb (Nat.eqb id) ids.
+Lemma mem_In id ids : mem id ids = true <-> In id ids.
+Proof.
+  unfold mem. rewrite existsb_exists. split.
+  - intros (x & Hx & E). apply Nat.eqb_eq in E. now subst.
+  - intros H. exists id. split; [exact H|apply Nat.eqb_refl].
+Qed.
+Lemma mem_app id a b : mem id (a ++ b) = mem id a || mem id b.
+Proof. unfold mem. apply existsb_app. Qed.
+
+Lemma lookup_mark_all w ids : forall m id,
+  lookup id (mark_all w ids m) =
+    match lookup id m with Some v => Some v | None => if mem id ids then Some w else None end.
+Proof.
+  induction ids as [|x r IH]; intros m id; cbn [mark_all mem existsb].
+  - destruct (lookup id m); reflexivity.
+  - rewrite IH. destruct (lookup x m) as [vx|] eqn:Ex.
+    + destruct (lookup id m) as [v|] eqn:Ei; [reflexivity|].
+      destruct (Nat.eqb id x) eqn:E; [|reflexivity]. apply Nat.eqb_eq in E. subst. congruence.
+    + cbn [lookup]. destruct (Nat.eqb x id) eqn:E.
+      * apply Nat.eqb_eq in E. subst. rewrite Ex, Nat.eqb_refl. reflexivity.
+      * rewrite Nat.eqb_sym, E. reflexivity.
+Qed.
+Lemma mark_all_app w a b m : mark_all w (a ++ b) m = mark_all w b (mark_all w a m).
+Proof. revert m. induction a as [|x r IH]; intros m; cbn [app mark_all]; [reflexivity|apply IH]. Qed.
+Lemma mark_all_marked w ids m : all_marked m ids -> mark_all w ids m = m.
+Proof.
+  induction 1 as [|x r Hx _ IH]; cbn [mark_all]; [reflexivity|].
+  unfold marked in Hx. destruct (lookup x m); [exact IH|congruence].
+Qed.
+Lemma marked_mark_all w ids m id : marked m id -> marked (mark_all w ids m) id.
+Proof. unfold marked. rewrite lookup_mark_all. destruct (lookup id m); congruence. Qed.
+Lemma marked_mark_all_in w ids m id : In id ids -> marked (mark_all w ids m) id.
+Proof.
+  intros H. unfold marked. rewrite lookup_mark_all. apply mem_In in H. rewrite H.
+  destruct (lookup id m); congruence.
+Qed.
+Lemma all_marked_mark_all w ids m : all_marked (mark_all w ids m) ids.
+Proof. apply Forall_forall. intros id H. now apply marked_mark_all_in. Qed.
+Lemma all_marked_mono w ids m l : all_marked m l -> all_marked (mark_all w ids m) l.
+Proof. intros H. eapply Forall_impl; [|exact H]. intros id. apply marked_mark_all. Qed.
+Lemma all_marked_app m a b : all_marked m (a ++ b) <-> all_marked m a /\ all_marked m b.
+Proof. apply Forall_app. Qed.
+(* marks only grow, and what is marked stays as it is *)
+Definition mext (m m' : marks) : Prop := forall id v, lookup id m = Some v -> lookup id m' = Some v.
+Lemma mext_mark_all w ids m : mext m (mark_all w ids m).
+Proof. intros id v H. rewrite lookup_mark_all, H. reflexivity. Qed.
+Lemma mext_agree m m' ids : mext m m' -> all_marked m ids -> forall id, In id ids -> lookup id m' = lookup id m.
+Proof.
+  intros He Ha id Hin. unfold all_marked in Ha. rewrite Forall_forall in Ha. specialize (Ha id Hin).
+  unfold marked in Ha. destruct (lookup id m) as [v|] eqn:E; [|congruence]. now apply He.
+Qed.
+
+(* ---------- chains ---------- *)
+Lemma io_ctxs_app m a b : io_ctxs m (a ++ b) = io_ctxs m a ++ io_ctxs m b.
+Proof. apply map_app. Qed.
+Lemma obs_ctx_app a b : obs_ctx (a ++ b) = obs_ctx a ++ obs_ctx b.
+Proof. unfold obs_ctx. now rewrite map_app, concat_app. Qed.
+Lemma lazy_ids_app a b : lazy_ids (a ++ b) = lazy_ids a ++ lazy_ids b.
+Proof. unfold lazy_ids. now rewrite map_app, concat_app. Qed.
+Lemma lazy_ids_cons_lazy id fs r : lazy_ids (PLazy id fs :: r) = id :: lazy_ids r.
+Proof. reflexivity. Qed.
+Lemma lazy_ids_cons_eager w fs r : lazy_ids (PEager w fs :: r) = lazy_ids r.
+Proof. reflexivity. Qed.
+
+Lemma io_ctxs_ext m1 m2 ch : (forall id, In id (lazy_ids ch) -> lookup id m1 = lookup id m2) ->
+  io_ctxs m1 ch = io_ctxs m2 ch.
+Proof.
+  induction ch as [|it r IH]; intros H; [reflexivity|]. cbn [io_ctxs map]. f_equal.
+  - destruct it as [w fs|id fs]; [reflexivity|]. cbn [item_world item_fs]. unfold mark_or.
+    rewrite (H id); [reflexivity|]. rewrite lazy_ids_cons_lazy. now left.
+  - apply IH. intros id Hin. apply H. destruct it; [exact Hin|rewrite lazy_ids_cons_lazy; now right].
+Qed.
+
+(* ---------- the expected pure core of a chain of path items ---------- *)
+Fixpoint pexp (m : marks) (c : lcomp) (ch : list pitem) {struct c} : pcore :=
+  match c with
+  | LIo co k => PIo co k (with_chain c07_cfg co (io_ctxs m ch))
+  | LObs k => PObs k (obs_ctx ch)
+  | LTee l => PTee (map (fun x => pexp m x ch) l)
+  | LSamp c => PSamp (pexp m c ch)
+  | LHook c => PHook (pexp m c ch)
+  | LFilt thr c => PFilt thr (pexp m c ch)
+  | LLazy id lfs c => pexp m c (PLazy id lfs :: ch)
+  end.
+
+(* wrapper_with_commutes: With on any composition of wrappers = With at every leaf, wrappers kept *)
+Lemma pwith_pexp m w fs : forall c ch, pwith w fs (pexp m c ch) = pexp m c (ch ++ [PEager w fs]).
+Proof.
+  induction c as [co k|k|l IH|c IH|c IH|thr c IH|id lfs c IH] using lcomp_ind'; intros ch; cbn [pexp pwith].
+  - f_equal. rewrite io_ctxs_app. cbn [io_ctxs map item_world item_fs]. unfold with_chain. now rewrite fold_left_app.
+  - f_equal. rewrite obs_ctx_app. f_equal. unfold obs_ctx. cbn [map concat item_fs]. now rewrite app_nil_r.
+  - f_equal. rewrite map_map. apply map_ext_in. intros x Hx. rewrite Forall_forall in IH. now apply IH.
+  - now rewrite IH.
+  - now rewrite IH.
+  - now rewrite IH.
+  - now rewrite IH.
+Qed.
+
+Lemma pexp_ext m1 m2 : forall c ch,
+  (forall id, In id (all_ids c ++ lazy_ids ch) -> lookup id m1 = lookup id m2) -> pexp m1 c ch = pexp m2 c ch.
+Proof.
+  induction c as [co k|k|l IH|c IH|c IH|thr c IH|id lfs c IH] using lcomp_ind'; intros ch H; cbn [pexp all_ids] in *.
+  - f_equal. f_equal. apply io_ctxs_ext. exact H.
+  - reflexivity.
+  - f_equal. apply map_ext_in. intros x Hx. rewrite Forall_forall in IH. apply IH; [exact Hx|].
+    intros id Hin. apply H. apply in_app_iff in Hin as [Hin|Hin]; apply in_app_iff; [left|now right].
+    apply in_concat. exists (all_ids x). split; [now apply in_map|exact Hin].
+  - f_equal. now apply IH.
+  - f_equal. now apply IH.
+  - f_equal. now apply IH.
+  - apply IH. intros i Hin. apply H. rewrite lazy_ids_cons_lazy in Hin.
+    apply in_app_iff in Hin as [Hin|[<-|Hin]]; apply in_app_iff.
+    + left. apply in_app_iff. now left.
+    + left. apply in_app_iff. right. now left.
+    + now right.
+Qed.
+
+(* a lazily evaluated item whose evaluation world is w is an eager item made at w *)
+Lemma pexp_lazy_eager m id w lfs : lookup id m = Some w ->
+  forall c a b, pexp m c (a ++ PLazy id lfs :: b) = pexp m c (a ++ PEager w lfs :: b).
+Proof.
+  intros Hm. induction c as [co k|k|l IH|c IH|c IH|thr c IH|id' lfs' c IH] using lcomp_ind'; intros a b; cbn [pexp].
+  - f_equal. f_equal. rewrite !io_ctxs_app. f_equal. cbn [io_ctxs map item_world item_fs]. unfold mark_or. now rewrite Hm.
+  - f_equal. rewrite !obs_ctx_app. f_equal.
+  - f_equal. apply map_ext_in. intros x Hx. rewrite Forall_forall in IH. now apply IH.
+  - now rewrite IH.
+  - now rewrite IH.
+  - now rewrite IH.
+  - apply (IH (PLazy id' lfs' :: a) b).
+Qed.
+
+(* ---------- Enabled is a static fact of the composition ---------- *)
+Lemma penabled_pexp m hi : forall c ch, penabled hi (pexp m c ch) = senabled hi c.
+Proof.
+  induction c as [co k|k|l IH|c IH|c IH|thr c IH|id lfs c IH] using lcomp_ind'; intros ch; cbn [pexp penabled senabled]; auto.
+  induction IH as [|x r Hx _ IHr]; cbn [map existsb]; [reflexivity|]. now rewrite Hx, IHr.
+Qed.
+
+(* ---------- well-formed oracle values ---------- *)
+Definition wf_item (it : pitem) : bool := wf_sflds (item_fs it).
+Definition wf_items (its : list pitem) : bool := forallb wf_item its.
+Fixpoint wf_lcomp (c : lcomp) : bool :=
+  match c with
+  | LIo _ _ | LObs _ => true
+  | LTee l => forallb wf_lcomp l
+  | LSamp c | LHook c | LFilt _ c => wf_lcomp c
+  | LLazy _ fs c => wf_sflds fs && wf_lcomp c
+  end.
+Lemma wf_eval w s : wf_sfld s = true -> wf_fld (eval w s) = true.
+Proof. destruct s; cbn; auto. Qed.
+Lemma wf_evals w fs : wf_sflds fs = true -> wf_flds (evals w fs) = true.
+Proof.
+  unfold wf_sflds, wf_flds, evals. rewrite !forallb_forall. intros H f Hin.
+  apply in_map_iff in Hin as (s & <- & Hs). apply wf_eval. now apply H.
+Qed.
+Lemma wf_io_ctxs m ch : wf_items ch = true -> forallb wf_flds (io_ctxs m ch) = true.
+Proof.
+  unfold wf_items, io_ctxs. rewrite !forallb_forall. intros H fs Hin.
+  apply in_map_iff in Hin as (it & <- & Hit). apply wf_evals. now apply H.
+Qed.
+Lemma wf_flds_app a b : wf_flds (a ++ b) = wf_flds a && wf_flds b.
+Proof. apply forallb_app. Qed.
+Lemma wf_sflds_app a b : wf_sflds (a ++ b) = wf_sflds a && wf_sflds b.
+Proof. apply forallb_app. Qed.
+Lemma wf_obs_ctx ch : wf_items ch = true -> wf_sflds (obs_ctx ch) = true.
+Proof.
+  induction ch as [|it r IH]; [reflexivity|]. cbn [wf_items forallb]. intros H. apply andb_true_iff in H as [H1 H2].
+  unfold obs_ctx. cbn [map concat]. rewrite wf_sflds_app. apply andb_true_iff. split; [exact H1|now apply IH].
+Qed.
+
+(* ---------- the bytes of a line ---------- *)
+Lemma ev_chain_flat c ctxs fs : ev_flds c fs (ev_with_chain c ctxs) = ev_flds c (concat ctxs ++ fs) octx0.
+Proof.
+  unfold ev_with_chain, ev_flds. rewrite fold_left_app. f_equal.
+  generalize octx0. induction ctxs as [|x r IH]; intros o; cbn [fold_left concat]; [reflexivity|].
+  rewrite fold_left_app. apply IH.
+Qed.
+
+Lemma wf_entry_mk hi nm msg : wf_entry (mk_entry hi nm msg) = true.
+Proof. reflexivity. Qed.
+
+Lemma members_eq hi nm msg ctxs fs :
+  entry_members c07_cfg ctxs (mk_entry hi nm msg) fs = spec_members hi nm msg (concat ctxs ++ fs).
+Proof.
+  unfold entry_members, spec_members. rewrite ev_chain_flat.
+  unfold meta_members, stack_members. cbn [c07_cfg k_level e_level k_time k_name k_caller k_function k_message k_stack
+    mk_entry name caller_defined stack lvl_text message is_nil negb andb s_level s_msg s_logger app].
+  rewrite app_nil_r. destruct nm as [|b r]; reflexivity.
+Qed.
+
+Lemma json_leaf hi nm msg ctxs fs :
+  forallb wf_flds ctxs = true -> wf_flds fs = true ->
+  encode_entry c07_cfg false (with_chain c07_cfg false ctxs) (mk_entry hi nm msg) fs =
+    Some (json_line hi nm msg (concat ctxs ++ fs)).
+Proof.
+  intros Hc Hf. rewrite (entry_bytes c07_cfg false ctxs _ fs eq_refl Hc Hf (wf_entry_mk hi nm msg)).
+  rewrite members_eq. reflexivity.
+Qed.
+
+Lemma lvl_txt_nonnil hi : lvl_txt hi <> [].
+Proof. destruct hi; discriminate. Qed.
+
+Lemma console_leaf hi nm msg ctxs fs :
+  forallb wf_flds ctxs = true -> wf_flds fs = true ->
+  console_line c07_cfg (with_chain c07_cfg true ctxs) (mk_entry hi nm msg) fs =
+    console_spec_line hi nm msg (concat ctxs ++ fs).
+Proof.
+  intros Hc Hf.
+  pose proof (with_chain_R c07_cfg true ctxs Hc) as HR.
+  pose proof (refine_flds c07_cfg true fs Hf [] _ 0 _ (or_introl eq_refl) HR) as (Hb & Hn & _).
+  rewrite ev_chain_flat in Hb, Hn. cbn [app] in Hb.
+  set (o := ev_flds c07_cfg (concat ctxs ++ fs) octx0) in *.
+  assert (Hcb : buf (close_ns (enc_flds c07_cfg true fs (with_chain c07_cfg true ctxs))) = popen true (close o)).
+  { unfold close_ns; cbn [buf]. rewrite Hb, Hn. cbn [plus]. unfold close. rewrite popen_close.
+    unfold Refine1.pctx. now rewrite <- !app_assoc. }
+  unfold console_line, console_spec_line. rewrite Hcb. fold o.
+  assert (Hcols : join (console_sep c07_cfg) (console_cols c07_cfg (mk_entry hi nm msg)) =
+                  lvl_txt hi ++ (if is_nil nm then [] else [TAB] ++ nm)).
+  { destruct hi, nm as [|b r]; reflexivity. }
+  rewrite Hcols. change (k_message c07_cfg) with s_msg. change (k_stack c07_cfg) with (@nil byte).
+  change (stack (mk_entry hi nm msg)) with (@nil byte). change (message (mk_entry hi nm msg)) with msg.
+  change (resolved_le c07_cfg) with [NL]. unfold add_csep. change (console_sep c07_cfg) with [TAB].
+  cbn [s_msg is_nil negb andb].
+  assert (Hne : forall x, is_nil (lvl_txt hi ++ x) = false) by (intros x; destruct hi; reflexivity).
+  rewrite Hne.
+  destruct (close o) as [|m0 ms] eqn:Ecl.
+  - cbn [popen map join is_nil]. destruct nm as [|b r]; cbn [is_nil app]; rewrite <- ?app_assoc; cbn [app]; rewrite ?app_nil_r; reflexivity.
+  - assert (Hpn : is_nil (popen true (m0 :: ms)) = false).
+    { destruct (popen true (m0 :: ms)) eqn:E; [apply popen_nil_iff in E; discriminate|reflexivity]. }
+    rewrite Hpn. rewrite <- !app_assoc. rewrite Hne.
+    rewrite (pv_obj true (m0 :: ms)).
+    destruct nm as [|b r]; cbn [is_nil app]; repeat (progress (rewrite <- ?app_assoc; cbn [app])); reflexivity.
+Qed.
+
+(* Check + Write on the expected core of a chain: the specification's walk (whatever the marks are) *)
+Lemma plog_pexp m hi nm msg w fs : wf_sflds fs = true ->
+  forall c ch nn, wf_lcomp c = true -> wf_items ch = true ->
+  plog (mk_entry hi nm msg) hi w fs (pexp m c ch) nn = swalk m hi nm msg w fs c ch nn.
+Proof.
+  intros Hfs.
+  induction c as [co k|k|l IH|c IH|c IH|thr c IH|id lfs c IH] using lcomp_ind'; intros ch nn Hc Hch.
+  - cbn [pexp]. destruct co; cbn [plog swalk].
+    + rewrite console_leaf; [reflexivity|now apply wf_io_ctxs|now apply wf_evals].
+    + rewrite json_leaf; [reflexivity|now apply wf_io_ctxs|now apply wf_evals].
+  - cbn [pexp plog swalk]. change empty with (with_chain c07_cfg false []).
+    rewrite json_leaf; [reflexivity|reflexivity|]. apply wf_evals. rewrite wf_sflds_app, wf_obs_ctx, Hfs; auto.
+  - cbn [pexp]. rewrite plog_tee, swalk_tee. cbn [wf_lcomp] in Hc. revert nn.
+    induction IH as [|x r Hx _ IHr]; intros nn; cbn [map plog_list swalk_list]; [reflexivity|].
+    cbn [forallb] in Hc. apply andb_true_iff in Hc as [Hc1 Hc2].
+    rewrite (Hx ch nn Hc1 Hch). destruct (swalk m hi nm msg w fs x ch nn) as [[c1 w1] n1].
+    rewrite (IHr Hc2 n1). reflexivity.
+  - cbn [pexp plog swalk wf_lcomp] in *. rewrite penabled_pexp. rewrite (IH ch nn Hc Hch). reflexivity.
+  - cbn [pexp plog swalk wf_lcomp] in *. rewrite (IH ch nn Hc Hch). reflexivity.
+  - cbn [pexp plog swalk wf_lcomp] in *. rewrite (IH ch nn Hc Hch). reflexivity.
+  - cbn [pexp swalk wf_lcomp] in *. apply andb_true_iff in Hc as [Hl Hc]. apply IH; [exact Hc|].
+    cbn [wf_items forallb]. unfold wf_item at 1. cbn [item_fs]. now rewrite Hl.
+Qed.
